@@ -47,6 +47,7 @@ TOPTS = [("", {}), (" NOT NULL", {"nullable": False}), (" DEFAULT 1", {"default"
          (" NOT NULL DEFAULT 1", {"nullable": False, "default": 1})]
 NTO = len(TOPTS)
 POS = env_int("VF_POS", -1)
+PV = env_int("VF_PV", -1)
 PLAIN_P = {"name": "p", "type": "int", "size": None, "references": None, "unique": False, "nullable": True, "default": None, "check": None}
 PLAIN_Q = {"name": "q", "type": "varchar", "size": 5, "references": None, "unique": False, "nullable": True, "default": None, "check": None}
 
@@ -59,20 +60,31 @@ def kf_angle_token(ti: int) -> bool:
     return "<" in first and ">" in first
 
 
-def _c09_case(ti, oi, pos):
+PVARIANTS = [("p int", {}), ("p int DEFAULT 1", {"default": 1}), ("p int NOT NULL", {"nullable": False}), ("p int CHECK (p > 0)", {"check": "p > 0"})]
+NPV = len(PVARIANTS)
+
+
+def kf_check_before_angle_type(ti: int, pos: int, pv: int) -> bool:
+    """known finding C09/check-before-angle-type: a CHECK in an earlier column leaves the lexer's
+    `check` flag set for the rest of the statement; '<' / '>' of a later <...> type are then not
+    lexed as brackets and the table is lost."""
+    return pv == 3 and pos >= 1 and "<" in TYPES[ti][0]
+
+
+def _c09_case(ti, oi, pos, pv=0):
     written, ttext, tsize = TYPES[ti]
     k = "k " + written + TOPTS[oi][0]
-    cols = ["p int", "q varchar(5)"]
+    cols = [PVARIANTS[pv][0], "q varchar(5)"]
     cols.insert(pos, k)
     return "CREATE TABLE t (" + ", ".join(cols) + ");"
 
 
-def _c09_ok(res, ti, oi, pos) -> bool:
+def _c09_ok(res, ti, oi, pos, pv=0) -> bool:
     if not isinstance(res, list) or len(res) != 1 or len(res[0].get("columns", [])) != 3:
         return False
     cols = res[0]["columns"]
     others = [c for i, c in enumerate(cols) if i != pos]
-    if others != [PLAIN_P, PLAIN_Q]:
+    if others != [dict(PLAIN_P, **PVARIANTS[pv][1]), PLAIN_Q]:
         return False
     c = cols[pos]
     written, ttext, tsize = TYPES[ti]
@@ -89,30 +101,35 @@ def _c09_ok(res, ti, oi, pos) -> bool:
     return all(c.get(k) == v for k, v in want.items())
 
 
-def c_type(ti: int, oi: int, pos: int) -> bool:
+def c_type(ti: int, oi: int, pos: int, pv: int) -> bool:
     """
     C09: a column of catalogued type #ti followed by option set #oi at position pos of a
-    three-column table: one type string (blank-insensitive) with balanced brackets, the declared
-    size, the options kept, both neighbours exactly as next to a plain type.
+    three-column table whose first plain neighbour carries option variant pv (none / DEFAULT /
+    NOT NULL / CHECK): one type string with balanced brackets, the declared size, the options
+    kept, both neighbours exactly as next to a plain type.
 
     pre: 0 <= ti < NT and 0 <= oi < NTO and 0 <= pos <= 2
+    pre: 0 <= pv < NPV
+    pre: PV < 0 or pv == PV
+    pre: not kf_check_before_angle_type(ti, pos, pv)
     pre: POS < 0 or pos == POS
     pre: not kf_angle_token(ti)
     post: _
     """
-    return _c09_ok(run(_c09_case(ti, oi, pos)), ti, oi, pos)
+    return _c09_ok(run(_c09_case(ti, oi, pos, pv)), ti, oi, pos, pv)
 
 
-def api_c_type(ti, oi, pos):
+def api_c_type(ti, oi, pos, pv):
     from simple_ddl_parser import DDLParser
-    ddl = _c09_case(ti, oi, pos)
+    ddl = _c09_case(ti, oi, pos, pv)
     got = DDLParser(ddl).run()
-    return {"ddl": ddl, "got": got, "expected_type": TYPES[ti][1], "expected_size": TYPES[ti][2], "reproduced": not _c09_ok(got, ti, oi, pos)}
+    return {"ddl": ddl, "got": got, "expected_type": TYPES[ti][1], "expected_size": TYPES[ti][2], "reproduced": not _c09_ok(got, ti, oi, pos, pv)}
 
 
 # ------------------------------------------------------------------ C07 ----------------------
 LITERALS = ["'a'", "'a b'", "'A b C'", "'k = v'", "'a =b'", "'x  = y'", "'a;b'", "'--x'", "'#x'", "'/* x */'", "'NULL'", "'select'",
-            "'CREATE TABLE z'", "'10%'", "'a.b'", "'a_b-c'", "'(x)'", "'a,b'", "'a, b'", "'a=b'", "'it is'", "''"]
+            "'CREATE TABLE z'", "'10%'", "'a.b'", "'a_b-c'", "'(x)'", "'a,b'", "'a, b'", "'a=b'", "'it is'", "''", "'black and white'", "'this Or that'",
+            "'not null'"]
 NLIT = len(LITERALS)
 NUMBERS = ["0", "1", "4", "10", "007", "00", "0012", "123456", "9223372036854775808"]
 NNUM = len(NUMBERS)
@@ -124,6 +141,8 @@ POSITIONS = [
     ("enum value", "CREATE TYPE e AS ENUM ('first', {L}, 'last');", lambda r: r[0]["properties"]["values"][1]),
     ("check in-list", "CREATE TABLE t (p varchar(9) CHECK (p IN ('u', {L})), q int);", lambda r: r[0]["columns"][0]["check"][0]["in_statement"]["in"][1]),
     ("location option", "CREATE TABLE t (p int, q int) LOCATION {L};", lambda r: r[0]["table_properties"]["location"]),
+    ("column check", "CREATE TABLE t (p varchar(9) CHECK (p <> {L}), q int);", lambda r: r[0]["columns"][0]["check"][len("p <> "):]),
+    ("named table check", "CREATE TABLE t (p varchar(9), q int, CONSTRAINT c CHECK (p <> {L}));", lambda r: r[0]["checks"][0]["statement"][len("p <> "):]),
 ]
 NPOS = len(POSITIONS)
 # known finding C07/respaced-literal: the pre-processor's spacing rules for '(' ')' ', ' '=' and
@@ -338,3 +357,115 @@ def api_c_entity(e1, e2, ctx):
     ddl = "\n".join(text)
     got = DDLParser(ddl).run()
     return {"ddl": ddl, "got": got, "expected": want, "reproduced": got != want}
+
+
+# ------------------------------------------------------------------ C13 through the pipeline --
+GSTMTS = ["CREATE TABLE t1 (a int);", "CREATE SEQUENCE q START 1;", "CREATE TYPE ty AS ENUM ('a');", "CREATE DOMAIN d AS varchar(3);", "CREATE SCHEMA sc;",
+          "CREATE DATABASE db;", "CREATE TABLESPACE ts;", "SET x = 1;", "SET ANSI_NULLS ON;", "SET hive.exec.parallel;", "SET y 2 ;", "DROP TABLE old;",
+          "CREATE TABLE t2 (b int); -- note", "GO"]
+NG = len(GSTMTS)
+
+
+def _regroup_ok(flat, grouped) -> bool:
+    if not isinstance(flat, list) or not isinstance(grouped, dict):
+        return False
+    for b in ("tables", "types", "sequences", "domains", "schemas", "ddl_properties"):
+        if not isinstance(grouped.get(b), list):
+            return False
+    ents = [e for e in flat if not (isinstance(e, dict) and list(e.keys()) == ["comments"])]
+    comments = [c for e in flat if isinstance(e, dict) and list(e.keys()) == ["comments"] for c in e["comments"]]
+    bucketed = [e for b, lst in grouped.items() if b != "comments" for e in lst]
+    if len(bucketed) != len(ents) or any(e not in bucketed for e in ents):
+        return False
+    # relative order inside every bucket follows the flat order
+    for b, lst in grouped.items():
+        if b == "comments":
+            continue
+        idx = [ents.index(e) for e in lst]
+        if idx != sorted(idx):
+            return False
+    return grouped.get("comments", []) == comments
+
+
+def c_group_pipe(g1: int, g2: int, g3: int) -> bool:
+    """
+    C13 end to end: three catalogued statements (entity kinds, four SET spellings, DROP TABLE, a
+    commented table, a skipped line - symbolic indices): every entity of the flat result is in
+    exactly one bucket of the grouped result, unchanged, order kept; comments gathered.
+
+    pre: 0 <= g1 < NG and 0 <= g2 < NG and 0 <= g3 < NG
+    pre: g1 != g2 and g2 != g3 and g1 != g3
+    pre: G1 < 0 or g1 == G1
+    post: _
+    """
+    text = "\n".join([GSTMTS[g1], GSTMTS[g2], GSTMTS[g3], ""])
+    return _regroup_ok(run(text), run(text, group_by_type=True))
+
+
+G1 = env_int("VF_G1", -1)
+
+
+def api_c_group_pipe(g1, g2, g3):
+    from simple_ddl_parser import DDLParser
+    text = "\n".join([GSTMTS[g1], GSTMTS[g2], GSTMTS[g3], ""])
+    flat, grouped = DDLParser(text).run(), DDLParser(text).run(group_by_type=True)
+    return {"ddl": text, "flat": flat, "grouped": grouped, "reproduced": not _regroup_ok(flat, grouped)}
+
+
+# ------------------------------------------------------------------ C05 statement-level case ---
+# keywords to re-case are marked «LIKE THIS»; type names, identifiers and values (CASCADE, ASC / DESC - see the
+# recorded finding asc-desc-lowercase; ENUM / BIGFILE are reported as written; AUTHORIZATION and CHARSET - recorded finding
+# case-sensitive-id-keywords) keep their spelling
+CASE_STMTS = [
+    "«CREATE» «TABLE» t (a INT «IDENTITY»(1,1) «NOT» «NULL», b VARCHAR(10) «DEFAULT» 'x' «PRIMARY» «KEY», c INT «REFERENCES» o (x) «ON» «DELETE» CASCADE);",
+    "«CREATE» «TABLE» «IF» «NOT» «EXISTS» s.t (a INT, b INT, «CONSTRAINT» k «PRIMARY» «KEY» (a, b), «CONSTRAINT» u «UNIQUE» (b), «FOREIGN» «KEY» (a) «REFERENCES» o (x));",
+    "«CREATE» «TABLE» t (a INT «CHECK» (a > 1), b INT «GENERATED» «ALWAYS» «AS» (a * 2) «STORED», c INT «UNIQUE» «NULL»);",
+    "«CREATE» «TABLE» t (a INT) «PARTITIONED» «BY» (d STRING) «STORED» «AS» PARQUET «LOCATION» 's3://x';",
+    "«CREATE» «TABLE» t (a INT) «ENGINE»=InnoDB «AUTO_INCREMENT»=7 «DEFAULT» CHARSET=utf8;",
+    "«CREATE» «TABLE» t (a INT) «TABLESPACE» ts1;",
+    "«CREATE» «TEMPORARY» «TABLE» t (a INT, b INT «ENCODE» zstd) «DISTSTYLE» KEY;",
+    "«CREATE» «OR» «REPLACE» «TABLE» t (a INT) «CLUSTER» «BY» (a);",
+    "CREATE TABLE t (a INT, b INT);\n«ALTER» «TABLE» t «ADD» «CONSTRAINT» c «FOREIGN» «KEY» (a) «REFERENCES» o (x) «ON» «UPDATE» CASCADE;",
+    "CREATE TABLE t (a INT, b INT);\n«ALTER» «TABLE» t «DROP» «COLUMN» a;\n«ALTER» «TABLE» t «RENAME» «COLUMN» b «TO» c;\n«ALTER» «TABLE» t «MODIFY» «COLUMN» c VARCHAR(5);",
+    "CREATE TABLE t (a INT, b INT);\n«CREATE» «UNIQUE» «INDEX» i «ON» t (a DESC, b ASC);",
+    "«CREATE» «SEQUENCE» s.q «INCREMENT» «BY» 2 «START» «WITH» 5 «MINVALUE» 1 «NO» «MAXVALUE» «CACHE» 10 «NOORDER»;",
+    "«CREATE» «TYPE» ty «AS» ENUM ('a', 'b');",
+    "«CREATE» «SCHEMA» «IF» «NOT» «EXISTS» sc;",
+    "«CREATE» BIGFILE «TEMPORARY» «TABLESPACE» ts;",
+    "«DROP» «TABLE» s.t;",
+]
+NCS = len(CASE_STMTS)
+
+
+def _recase(stmt: str, style: int) -> str:
+    out = []
+    for i, part in enumerate(stmt.split("«")):
+        if i == 0:
+            out.append(part)
+            continue
+        w, rest = part.split("»", 1)
+        out.append((w if style == 0 else w.lower() if style == 1 else w.capitalize()) + rest)
+    return "".join(out)
+
+
+def c_case_stmt(si: int, style: int) -> bool:
+    """
+    C05 end to end: a catalogued statement with every keyword in lower case (style 1) or
+    Capitalized (style 2) yields exactly what its upper-case spelling yields.
+
+    pre: 0 <= si < NCS
+    pre: 1 <= style <= 2
+    post: _
+    """
+    return run(_recase(CASE_STMTS[si], style)) == CASE_UPPER[si] and bool(CASE_UPPER[si])
+
+
+CASE_UPPER = [run(_recase(s_, 0)) for s_ in CASE_STMTS]
+
+
+def api_c_case_stmt(si, style):
+    from simple_ddl_parser import DDLParser
+    ddl = _recase(CASE_STMTS[si], style)
+    up = _recase(CASE_STMTS[si], 0)
+    got, want = DDLParser(ddl).run(), DDLParser(up).run()
+    return {"ddl": ddl, "ddl_upper": up, "got": got, "expected": want, "reproduced": got != want}
